@@ -12,7 +12,7 @@ typedef struct { int n; int e[MAXN + 2]; } model_t;
 static sm_spec_t SP;
 static unsigned char ELB[3][64];
 
-enum { OP_ADDFIRST, OP_ADDLAST, OP_ADDAT, OP_SETAT, OP_SETFIRST, OP_SETLAST, OP_POPAT, OP_POPFIRST, OP_POPLAST, OP_REMOVEAT, OP_REMOVEFIRST, OP_REMOVELAST, OP_REVERSE, OP_RESIZE, OP_CLEAR, OP_RESIZEHUGE };
+enum { OP_ADDFIRST, OP_ADDLAST, OP_ADDAT, OP_SETAT, OP_SETFIRST, OP_SETLAST, OP_POPAT, OP_POPFIRST, OP_POPLAST, OP_REMOVEAT, OP_REMOVEFIRST, OP_REMOVELAST, OP_REVERSE, OP_RESIZE, OP_CLEAR, OP_RESIZEHUGE, OP_WALKSHRINK };
 typedef struct { int kind, i, e; const char *label; } op_t;
 static op_t OPS[400]; static int NOPS;
 static const char *op_label(int op) { return OPS[op].label; }
@@ -122,6 +122,23 @@ static int apply(qvector_t *v, model_t *m, const op_t *op, int check, const char
             break;
         }
         case OP_CLEAR: v->clear(v); m->n = 0; break;
+        case OP_WALKSHRINK: {   /* the cursor is an index: a walk interrupted by removals goes on with what is left at and after its position, and ends */
+            int j = op->i, k = op->e;      /* j steps, then k x removelast (k = 9: clear), then the rest of the walk */
+            if (n < j) return 1;
+            qvector_obj_t ob; memset(&ob, 0, sizeof ob); int c = 0, bad = 0;
+            while (c < j && v->getnext(v, &ob, false)) c++;
+            if (k == 9) { v->clear(v); m->n = 0; } else for (int i = 0; i < k && m->n > 0; i++) { v->removelast(v); m->n--; }
+            int pos = j, steps = 0;
+            for (;;) {
+                errno = 0; bool r = v->getnext(v, &ob, true); int e = errno;
+                if (!r) { if (check && e != ENOENT) vc_viol("array:walk", "%s: end of the resumed walk reported with errno %d", after, e); break; }
+                if (pos >= m->n || memcmp(ob.data, ELB[m->e[pos]], OSZ)) bad = 1;
+                free(ob.data); pos++;
+                if (++steps > N + 3) { bad = 1; break; }
+            }
+            if (check && (bad || pos < m->n)) vc_viol("array:walk-resumed", "%s: walk resumed at index %d after shrinking to %d elements returned %d elements / wrong ones", after, j, m->n, steps);
+            break;
+        }
         case OP_RESIZEHUGE: {   /* capacities whose byte size does not fit into size_t (or into memory): can only be refused, and then nothing may change */
             size_t want = op->i == 2 ? SIZE_MAX : SIZE_MAX / OSZ + 1 + op->i;
             if (want == 0 || (op->i < 2 && OSZ == 1)) return 1;
@@ -182,6 +199,7 @@ static void setup(void) {
     for (int mx = 0; mx <= N + 2; mx++) OPS[NOPS++] = (op_t){OP_RESIZE, mx, 0, "qvector_resize"};
     OPS[NOPS++] = (op_t){OP_CLEAR, 0, 0, "qvector_clear"};
     for (int h = 0; h < 3; h++) OPS[NOPS++] = (op_t){OP_RESIZEHUGE, h, 0, "qvector_resize"};
+    for (int j = 1; j <= 3 && j <= N; j++) for (int k = 1; k <= 4; k++) OPS[NOPS++] = (op_t){OP_WALKSHRINK, j, k == 4 ? 9 : k, "qvector_getnext"};
     snprintf(SP.prefix, sizeof SP.prefix, "vector:%d:%d:%d:%d:", CAP0, OSZ, POLICY, N);
     SP.nops = NOPS; SP.label = op_label; SP.transition = transition; SP.initial = initial;
 }
